@@ -13,3 +13,8 @@ CHECKS["C10"] = {
     "text": "every history of Set/Move/Remove/tick/Drain/Stop/invalid-argument calls over 1-2 keys up to the reported depth, for 1..4 (thorough 1..5) slots and delays up to 3 revolutions, is replayed on a fresh real wheel; every transition is compared with the reference model (exactly-once firing in the right tick with the latest value, no firing otherwise)",
     "note": "default schedule only (the wheel is single-goroutine by design; callbacks are awaited by quiescence); delays are multiples of the interval plus two half-interval values",
 }
+CHECKS["C09"] = {
+    "technique": "explicit-state model checking: BFS over Add/Reduce/time-advance histories of the real RollingWindow and over cpu/allow/pass/fail/time histories of the real adaptive shedder on a virtual clock, against list-of-timestamped-adds reference models; plus preemption-bounded schedule search for concurrent adders",
+    "text": "every history up to the reported depth (window sizes 1..4/5, both ignore-current settings, sub-bucket/multi-bucket/multi-window gaps) is replayed on fresh real objects; after every step a reduction must see exactly the per-bucket sums/counts the reference computes; for the shedder every rejection must satisfy the two necessary conditions of the statement, and in-flight/smoothed in-flight/capacity estimate must equal the reference after every step",
+    "note": "time is the instrumenter's virtual clock (timex rewritten); CPU reading injected through the package variable systemOverloadChecker; shedder rejection is checked as a necessary condition only (the statement has no liveness clause)",
+}
